@@ -490,6 +490,24 @@ pub fn run(cfg: &Config) -> Report {
             }
             1 => {
                 rep.cover("family.encode");
+                // every byte value through the scalar decoders of both alphabets
+                {
+                    use lightmotif::abc::Symbol;
+                    let res = guard(|| {
+                        let mut ok = 0usize;
+                        for b in 0..=255u8 {
+                            ok += lightmotif::abc::Nucleotide::from_ascii(b).is_ok() as usize;
+                            ok += lightmotif::abc::AminoAcid::from_ascii(b).is_ok() as usize;
+                            ok += lightmotif::abc::Nucleotide::from_char(b as char).is_ok() as usize;
+                            ok += lightmotif::abc::AminoAcid::from_char(b as char).is_ok() as usize;
+                        }
+                        std::hint::black_box(ok)
+                    });
+                    rep.cover("encode.every_byte_value_decoded");
+                    if let Err(p) = res {
+                        rep.violate(&format!("c06.panic:{}", panic_site(&p)), case, format!("panic while decoding single bytes: {}", p), J::Null);
+                    }
+                }
                 // exact-capacity byte inputs around the vector widths, valid and invalid
                 let l = *rng.pick(&[0usize, 1, 15, 16, 17, 31, 32, 33, 47, 48, 63, 64, 65, 95, 96, 97, 127, 128, 129, 255, 256, 257]);
                 let letters = b"ACGTN";
@@ -500,7 +518,7 @@ pub fn run(cfg: &Config) -> Report {
                     }
                     if let Some(p) = invalid_at {
                         if p < l {
-                            text[p] = b'x';
+                            text[p] = *rng.pick(&[b'x', 0x00u8, 0x7f, 0x80, 0x81, 0xc3, 0xfe, 0xff, b' ', b'a', b'@', b'[']);
                         }
                     }
                     let text = text.into_boxed_slice();
